@@ -59,6 +59,11 @@ def _apply(tree, cand):
           return None
         if isinstance(s, (ast.ImportFrom, ast.Import, ast.Global, ast.Nonlocal)):
           return None
+        if (isinstance(s, ast.Assign) and isinstance(s.value, ast.Constant) and len(s.targets) == 1
+            and isinstance(s.targets[0], ast.Name)):
+          return None   # constant initialisations keep shrunk programs inside "definitely assigned"
+        if isinstance(s, ast.FunctionDef) and len(s.body) == 1 and isinstance(s.body[0], ast.Return):
+          return None   # trivial predefined local functions
         del lst[i]
         if not lst:
           if f == 'body':
